@@ -538,11 +538,9 @@ func TestC13(t *testing.T) {
 				if perr != nil {
 					fail(rt, dumpPath(), "C13:percent-error", "%v\n%s", perr, desc())
 				}
-				for _, x := range [][3]float64{{float64(uc), float64(kc), cp}, {float64(um), float64(km), mp}} {
-					exact := new(big.Rat).SetFrac(big.NewInt(int64(x[0])*100), big.NewInt(int64(x[1])))
-					ef, _ := exact.Float64()
-					if math.Abs(x[2]-ef) > 1e-12*math.Max(1, math.Abs(ef)) {
-						fail(rt, dumpPath(), "C13:percent-value", "100*%v/%v: got %v want %v\n%s", x[0], x[1], x[2], ef, desc())
+				for i, x := range [][3]float64{{float64(uc), float64(kc), cp}, {float64(um), float64(km), mp}} {
+					if sig, msg := judgePercent(int64(x[0]), int64(x[1]), x[2], []int64{1, 1000}[i]); sig != "" {
+						fail(rt, dumpPath(), sig, "%s\n%s", msg, desc())
 					}
 				}
 			}
@@ -594,4 +592,79 @@ func qs(q *genQty) string {
 		return "-"
 	}
 	return q.s
+}
+
+
+// judgePercent compares a utilisation percentage with the exact rational 100*req/cap. Where
+// escalator's inputs are exactly representable in float64 (in its milli-units: scale 1 for
+// CPU, 1000 for memory) the result must be the float64 nearest to the exact value, so that a
+// utilisation equal to a threshold compares as equal; beyond that, within 1e-12 relative.
+func judgePercent(req, cap int64, got float64, scale int64) (sig, msg string) {
+	exact := new(big.Rat).SetFrac(new(big.Int).Mul(big.NewInt(req), big.NewInt(100)), big.NewInt(cap))
+	want, _ := exact.Float64()
+	if ref.FloatSafe(big.NewInt(req), big.NewInt(cap), scale) {
+		if got != want {
+			return "C13:percent-not-nearest-float", fmt.Sprintf("100*%d/%d: got %v, the exact value is %v (%s)", req, cap, got, want, exact.FloatString(20))
+		}
+		return "", ""
+	}
+	if math.Abs(got-want) > 1e-12*math.Max(1, math.Abs(want)) {
+		return "C13:percent-value", fmt.Sprintf("100*%d/%d: got %v want %v", req, cap, got, want)
+	}
+	return "", ""
+}
+
+// TestC13Percent: utilisation values that are exactly representable (in particular whole
+// percentages, which is what thresholds are compared with) at every magnitude, CPU- or
+// memory-bound.
+func TestC13Percent(t *testing.T) {
+	col := newCollector(t, "C13", "direct: requests and capacities constructed so that 100*request/capacity is a whole percentage (or k/8 of one) at magnitudes from millicores to hundreds of TiB, in units of 1, Ki, Mi, Gi and decimal multiples; the result must be the nearest float64 whenever the inputs are exactly representable in float64; non-trivial = totals above 2^53/100 milli-units; distinct by the tuple")
+	rapid.Check(t, func(rt *rapid.T) {
+		col.Case()
+		mem := rapid.Bool().Draw(rt, "memory")
+		unit := int64(1)
+		if mem {
+			unit = rapid.SampledFrom([]int64{1, 1000, 1 << 10, 1_000_000, 1 << 20, 1_000_000_000, 1 << 30}).Draw(rt, "unit")
+		}
+		k := rapid.Int64Range(1, 4000).Draw(rt, "k")
+		eighths := rapid.Int64Range(1, 8*160).Draw(rt, "eighths")
+		if rapid.IntRange(0, 2).Draw(rt, "whole") > 0 {
+			eighths = 8 * rapid.Int64Range(1, 160).Draw(rt, "percent")
+		}
+		cap := 800 * k * unit
+		req := eighths * k * unit
+		if mem && (req > (1<<62)/1000 || cap > (1<<62)/1000) {
+			return
+		}
+		var cpuReq, memReq, cpuCap, memCap resource.Quantity
+		other := rapid.Int64Range(0, 100).Draw(rt, "otherPercent")
+		if mem {
+			memReq, memCap = *resource.NewQuantity(req, resource.BinarySI), *resource.NewQuantity(cap, resource.BinarySI)
+			cpuReq, cpuCap = *resource.NewMilliQuantity(other*10, resource.DecimalSI), *resource.NewMilliQuantity(1000, resource.DecimalSI)
+		} else {
+			cpuReq, cpuCap = *resource.NewMilliQuantity(req, resource.DecimalSI), *resource.NewMilliQuantity(cap, resource.DecimalSI)
+			memReq, memCap = *resource.NewQuantity(other*1000, resource.BinarySI), *resource.NewQuantity(100000, resource.BinarySI)
+		}
+		var cp, mp float64
+		var err error
+		callTarget(rt, "C13", "calcPercentUsage", func() {
+			cp, mp, err = controller.VerifCalcPercentUsage(cpuReq, memReq, cpuCap, memCap, 3)
+		})
+		col.Eval(1)
+		if err != nil {
+			fail(rt, dumpPath(), "C13:percent-error", "%v", err)
+		}
+		got, scale := cp, int64(1)
+		if mem {
+			got, scale = mp, 1000
+		}
+		if sig, msg := judgePercent(req, cap, got, scale); sig != "" {
+			fail(rt, dumpPath(), sig, "%s", msg)
+		}
+		big100 := new(big.Int).Mul(big.NewInt(req), big.NewInt(100*scale))
+		if big100.BitLen() > 53 {
+			col.Nontrivial(fmt.Sprintf("pct|%d|%d|%v", req, cap, mem))
+			col.Sample(fmt.Sprintf("100*%d/%d (memory=%v) = %v", req, cap, mem, got))
+		}
+	})
 }
